@@ -104,6 +104,13 @@ def render(st, n, opts=None):
             cabs = st["defCables"][d - 1]
             if kids or cabs:
                 w("        (contents")
+                # option swapids: the instances of a cell exchange identifiers cyclically - instance "u" is written
+                # (rename id_of_v "u") and so on; every reference uses the identifier, so the design is the same
+                inst_ident = {}
+                if opts.get("swapids") and len(kids) >= 2:
+                    names = [st["instData"][i - 1]["name"] for i in kids]
+                    for j, i in enumerate(kids):
+                        inst_ident[i] = ident(names[(j + 1) % len(kids)])
                 for i in kids:
                     r = st["instRef"][i - 1]
                     props = st["instData"][i - 1].get("props", "")
@@ -116,7 +123,8 @@ def render(st, n, opts=None):
                                        ((decl(k) if j == 0 else k), v) for j, (k, v) in enumerate(plist))
                     # with comments on: an EMPTY comment construct ahead of the properties, a non-empty one after them
                     w("          (instance %s (viewRef netlist (cellRef %s (libraryRef %s)))%s%s%s)" %
-                      (decl(st["instData"][i - 1]["name"]), ref(st["defData"][r - 1]["name"]),
+                      (('(rename %s "%s")' % (inst_ident[i], st["instData"][i - 1]["name"])) if i in inst_ident
+                       else decl(st["instData"][i - 1]["name"]), ref(st["defData"][r - 1]["name"]),
                        ref(st["libData"][st["defLib"][r - 1] - 1]["name"]),
                        " (comment)" if comments else "", ptxt, ' (comment "an instance")' if comments else ""))
                 for c in cabs:
@@ -140,7 +148,8 @@ def render(st, n, opts=None):
                             pname = ref(st["portData"][p - 1]["name"])
                             pr = ("(member %s %d)" % (pname, bit)) if (pw > 1 or not pa["scalar"]) else pname
                             if r["k"] == "o":
-                                eps.append("(portRef %s (instanceRef %s))" % (pr, ref(st["instData"][r["i"] - 1]["name"])))
+                                iref = inst_ident[r["i"]] if r["i"] in inst_ident else ident(st["instData"][r["i"] - 1]["name"])
+                                eps.append("(portRef %s (instanceRef %s))" % (pr, iref.upper() if upper_refs else iref))
                             else:
                                 eps.append("(portRef %s)" % pr)
                         if skip_empty and not eps and is_array and 0 < k < len(wires) - 1:
